@@ -13,6 +13,8 @@ Families (spec/MC_Modules_<name>.cfg):
   rev         only-in around prefix-in (exhaustive; known finding)
   dep2        m2 requires m1 with a module-level modifier, contract/re-export visibilities (exhaustive)
   hist        3-unit histories over 2 modules with failing units / erroneous modules (exhaustive)
+  stages      the same histories with units rejected at the other compile stages: parser, macro expander
+              (no clause matches), lowering (name defined twice in a form, assignment to a literal)
   sim, simerr         seeded simulation of the full product (<= 3 modules, <= 2 requires each, 3 units)
   simsafe, simerrsafe the same without the two shapes that trigger known defects (Avoid), so that
                       nothing else can hide behind a known finding
@@ -279,6 +281,7 @@ FAMILIES = [
     ("MC_Modules_rev.cfg", "rev", True, 16, 100),
     ("MC_Modules_dep2.cfg", "dep2", True, 100, 700),
     ("MC_Modules_hist.cfg", "hist", True, 130, 800),
+    ("MC_Modules_stages.cfg", "stages", True, 150, 1500),
     ("MC_Modules_simsafe.cfg", "simsafe", False, 224, 1120),
     ("MC_Modules_sim.cfg", "sim", False, 128, 640),
     ("MC_Modules_simerrsafe.cfg", "simerrsafe", False, 64, 240),
